@@ -30,8 +30,18 @@ def exc_name(e):
     return type(e).__name__
 
 
+def sigobs(ss):
+    mh = ss.minhash
+    keys = list(mh.hashes.keys())
+    k = mh.ksize if mh.is_dna else mh.ksize * 3
+    shown = repr(ss)
+    return (f"sig md5={ss.md5sum()} mhmd5={decode_str(mh._methodcall(lib.kmerminhash_md5sum))} k={k} "
+            f"repr={shown.split('(')[1].rstrip(')').split(', ')[-1]} name={ss.name!r} mins={','.join(map(str, keys))}")
+
+
 def main():
     T = {}
+    G = {}
     out = sys.stdout
     for line in sys.stdin:
         w = line.split()
@@ -42,9 +52,30 @@ def main():
         try:
             if op == "#":
                 T = {}
+                G = {}
                 out.write("#\n")
                 continue
             a = w[1:]
+            if op.startswith("@"):
+                # signature-object ops: implementation only (no model counterpart)
+                if op == "@sig":
+                    G[int(a[0])] = SourmashSignature(T[int(a[1])], name=("" if len(a) < 3 else a[2]))
+                elif op == "@sigadd":
+                    G[int(a[0])].add_sequence(a[1], True)
+                elif op == "@sigaddprot":
+                    G[int(a[0])].add_protein(a[1])
+                elif op == "@sigsetmh":
+                    G[int(a[0])].minhash = T[int(a[1])]
+                elif op == "@sigmd5":
+                    G[int(a[0])].md5sum(); hash(G[int(a[0])]); str(G[int(a[0])])
+                elif op == "@sigcopy":
+                    G[int(a[0])] = G[int(a[1])].to_mutable() if a[2:] == ["mut"] else pickle.loads(pickle.dumps(G[int(a[1])]))
+                elif op == "@sigfreeze":
+                    G[int(a[0])] = G[int(a[1])].to_frozen()
+                else:
+                    raise KeyError(op)
+                out.write(sigobs(G[int(a[0])]) + "\n")
+                continue
             if op == "new":
                 r, num, scaled, track, ksize, seed = map(int, a)
                 T[r] = MinHash(num, ksize, track_abundance=bool(track), seed=seed, scaled=scaled)
